@@ -31,7 +31,8 @@ def clean():
 
 patch = os.path.join(sdir, "patch.diff")
 readme = open(os.path.join(sdir, "README.md")).read() if os.path.exists(os.path.join(sdir, "README.md")) else ""
-demos = [f for f in sorted(os.listdir(sdir)) if f not in ("patch.diff", "README.md", "meta.json") and not f.endswith(".csv") and not f.endswith(".mid")]
+demos = [f for f in sorted(os.listdir(sdir)) if f not in ("patch.diff", "README.md", "meta.json") and not f.endswith(".csv") and not f.endswith(".mid")
+         and not os.path.isdir(os.path.join(sdir, f))]
 ptxt = open(patch).read()
 rs = [d for d in demos if d.endswith(".rs")]
 scripts = [d for d in demos if d.endswith(".sh") or d.endswith(".py")]
@@ -48,6 +49,10 @@ if rs:
         os.makedirs(tdir, exist_ok=True)
         for d in rs:
             shutil.copy(os.path.join(sdir, d), os.path.join(tdir, "seed_demo_%s" % d.replace("-", "_")))
+        for d in os.listdir(sdir):
+            # helper modules of the demo (`mod common;` -> tests/common/mod.rs)
+            if os.path.isdir(os.path.join(sdir, d)):
+                shutil.copytree(os.path.join(sdir, d), os.path.join(tdir, d), dirs_exist_ok=True)
     tests = " ".join("--test seed_demo_%s" % d[:-3].replace("-", "_") for d in rs)
     demo_cmd = "cargo test --offline -p %s %s" % (pkg, tests)
 elif scripts:
@@ -105,6 +110,9 @@ os.makedirs(dst, exist_ok=True)
 shutil.copy(patch, os.path.join(dst, "patch.diff"))
 for d in demos:
     shutil.copy(os.path.join(sdir, d), os.path.join(dst, d))
+for d in os.listdir(sdir):
+    if os.path.isdir(os.path.join(sdir, d)):
+        shutil.copytree(os.path.join(sdir, d), os.path.join(dst, d), dirs_exist_ok=True)
 if readme:
     shutil.copy(os.path.join(sdir, "README.md"), os.path.join(dst, "README.md"))
 m = re.search(r"(?im)^#+\s*.*?(needed|needs|manifest|condition).*?\n(.+?)(\n#|\Z)", readme, re.S)
